@@ -21,6 +21,7 @@ _orig = None
 STMTS = []       # statements of the transaction in flight: (verb, table)
 MODES = []       # mode ('r' | 'w') of every outermost transaction opened, in order
 INSERTED = []    # (table, rowid) of every INSERT into consumers / resource_providers (row-id reuse detection)
+INSERT_BY = []   # (table, index of the request) of every such INSERT that SUCCEEDED
 
 
 def install():
@@ -69,6 +70,7 @@ def _stmt_hook(conn, cursor, statement, parameters, context, executemany):
 def _after_hook(conn, cursor, statement, parameters, context, executemany):
     if statement.startswith('INSERT INTO consumers') or statement.startswith('INSERT INTO resource_providers'):
         INSERTED.append((statement.split()[2], cursor.lastrowid))
+        INSERT_BY.append((statement.split()[2], getattr(greenlet.getcurrent(), 'sched_index', None)))
 
 
 def rowid_reused():
